@@ -1018,7 +1018,7 @@ REG.note('C14', 'trusted', 'AsyncStateMachine: operation generators modelled abs
                            'generator or raise; subclass callbacks out*Event are checked to be entered with the invariant and are '
                            'assumed to leave it intact')
 REG.note('C14', 'not_built', 'AsyncStateMachine.setServerHandshakeOp (**kwargs forwarder to setHandshakeOp); MessageSocket.recvMessage / '
-                             'flush / queueMessage; Defragmenter framing-freedom lemma; yield-transparency scan; blocking == draining wrappers')
+                             'sendMessage (needs the Defragmenter abstraction); Defragmenter framing-freedom lemma; yield-transparency scan; blocking == draining wrappers')
 
 
 # ======================================================================================================
